@@ -13,6 +13,9 @@ def model(rep, tier):
     rn = lib.tlc("own", "MC_Ownership", "neg.cfg", workers=4, coverage=False)
     lib.tlc_expect_violation(rn, "Ownership without drop suppression on into()", "AtMostOnce")
     rep.extra["negative_models_refuted"] = 1
+    rep.extra["tlaps"] = {"module": "spec/own/OwnershipProof.tla",
+                          "theorem": "Spec => [](AtMostOnce /\\ DroppedMeansOnce /\\ LiveMeansZero), any Payload/Container sets, any number of steps",
+                          "obligations_proved": lib.tlaps("own", "OwnershipProof")}
 
 
 def replay_leg(rep, tier):
